@@ -84,9 +84,14 @@ func VerifC10_Idle() {
 	if spill != 0 {
 		tableSize = 40
 	}
-	cl := vpNewCluster(vpClusterConfig{members: 1, replicaCount: 1, writeQuorum: 1, readQuorum: 1, partitions: 1, tableSize: tableSize,
+	replicas := 1 + vpChoose("replicas", 2)
+	cl := vpNewCluster(vpClusterConfig{members: replicas, replicaCount: replicas, writeQuorum: 1, readQuorum: 1, partitions: 1, tableSize: tableSize,
 		dmaps: &config.DMaps{MaxIdleDuration: time.Duration(window) * time.Millisecond}})
-	cl.vpSetOwners(0, []int{0}, nil)
+	if replicas == 2 {
+		cl.vpSetOwners(0, []int{0}, []int{1})
+	} else {
+		cl.vpSetOwners(0, []int{0}, nil)
+	}
 	ctx := context.Background()
 	dm := vpDMap(cl.members[0], "d")
 	vpAssume(dm.Put(ctx, "k", []byte{1}, nil) == nil)
@@ -112,15 +117,18 @@ func VerifC10_Idle() {
 	vpSleepMs(vpRange("wait2", 0, 60))
 	now := vpNowMs()
 	vpAssume(now-touched >= int64(window)+vpMarginMs || now-touched+vpMarginMs < int64(window))
-	hkey := partitions.HKey("d", "k")
-	part := dm.getPartitionByHKey(hkey, partitions.PRIMARY)
-	f, _ := dm.loadFragment(part)
-	cl.members[0].svc.scanFragmentForEviction(0, "d", f)
+	// one round of the background eviction worker (the real entry point: it picks the partition and hands the
+	// fragment to the scan)
+	cl.members[0].svc.evictKeys()
 	_, present := vpCopy(cl.members[0], "d", "k", partitions.PRIMARY)
 	if now-touched < int64(window) {
 		vpAssert(present, "key-accessed-within-window-is-not-evicted")
 	} else {
 		vpAssert(!present, "idle-key-is-evicted-when-scanned")
+		if replicas == 2 {
+			_, onBackup := vpCopy(cl.members[1], "d", "k", partitions.BACKUP)
+			vpAssert(!onBackup, "evicted-key-is-removed-from-the-backup-too")
+		}
 	}
 	vpReach("end")
 }
